@@ -769,6 +769,17 @@ def corpus(tier):
             tags=("class", "extends", "named-arg", "method-declared-two-or-more-levels-up"),
         )
     )
+    # writes through assignment targets with several index / field steps, read back afterwards
+    U.append(
+        Unit(
+            "nested_index_writes",
+            "model NCell:\n    hits: int\n    tags: List[int]\n\n\ndef nw_cube(i: int, j: int, k: int, v: int) -> int:\n    mut cube = [[[0, 0], [0, 0]], [[0, 0], [0, 0]]]\n    cube[i][j][k] = v\n    cube[0][0][0] += 1\n    mut acc = 0\n    for plane in cube:\n        for row in plane:\n            for c in row:\n                acc = acc * 3 + c\n    return acc\n\n\n"
+            "def nw_board(i: int, j: int, v: int) -> int:\n    mut board = [[NCell(hits=0, tags=[0, 0]), NCell(hits=1, tags=[1, 1])], [NCell(hits=2, tags=[2, 2]), NCell(hits=3, tags=[3, 3])]]\n    board[i][j].hits = v\n    board[i][j].tags[1] = v + 1\n    board[1][0].hits += 10\n    return board[0][0].hits * 1000 + board[0][1].hits * 100 + board[1][0].hits * 10 + board[1][1].hits + board[i][j].tags[1] * 100000\n\n\n"
+            "def nw_grid(i: int, j: int, v: int) -> int:\n    mut grid = [[0, 0, 0], [0, 0, 0]]\n    grid[i][j] = v\n    grid[1][2] += 4\n    return grid[0][0] + grid[0][1] * 10 + grid[0][2] * 100 + grid[1][0] * 1000 + grid[1][1] * 10000 + grid[1][2] * 100000",
+            "\n".join(f"println(nw_cube({i}, {j}, {k}, 5))" for i in (0, 1) for j in (0, 1) for k in (0, 1)) + "\n" + "\n".join(f"println(nw_board({i}, {j}, 7))" for i in (0, 1) for j in (0, 1)) + "\n" + "\n".join(f"println(nw_grid({i}, {j}, 9))" for i in (0, 1) for j in (0, 2)),
+            tags=("lvalue", "nested-index-write", "three-levels", "field-of-nested-element"),
+        )
+    )
     # functions that construct / match types declared elsewhere in the unit: defaults omitted, named arguments out of order,
     # unit and data variants, methods - the placement lifts move the types and the functions into different modules
     U.append(
